@@ -207,7 +207,7 @@ Proof.
 Qed.
 
 (* ---- the image invariant over histories INCLUDING Session Modification, inside the guard [mod_ok]
-   (Proofs/ModWorld.v; per-step lemmas in Proofs/ModImage.v).  [hist_ok burst w es] checks every event against the
+   (Proofs/ModWorld.v; per-step lemmas in Proofs/ModImage.v).  [guarded_hist burst w es] checks every event against the
    state it meets: events other than Session Modification must satisfy [ev_ok] as before; a Session Modification must
    satisfy the executable guard [mod_ok (agent before) (association before) message]:
      - unknown SEID: always inside (rejected, nothing changes);
@@ -231,12 +231,12 @@ Qed.
 From UPF Require Import Proofs.ModImage Proofs.ModWorld.
 Theorem C03_image_invariant_mod_partial : forall burst es w w',
   (forall x, In x (states burst w es) -> envelope burst x /\ alloc_backed x) ->
-  hist_ok burst w es = true -> image_ok burst w -> wrun burst w es = Done w' -> image_ok burst w'.
+  guarded_hist burst w es = true -> image_ok burst w -> wrun burst w es = Done w' -> image_ok burst w'.
 Proof. exact image_invariant_mod. Qed.
 Print Assumptions C03_image_invariant_mod_partial.
 
 (* the old theorem's histories are inside the new guard *)
-Theorem C03_mod_guard_subsumes : forall burst es w, forallb ev_ok es = true -> hist_ok burst w es = true.
+Theorem C03_mod_guard_subsumes : forall burst es w, forallb ev_ok es = true -> guarded_hist burst w es = true.
 Proof. exact ev_ok_hist_ok. Qed.
 Print Assumptions C03_mod_guard_subsumes.
 
@@ -305,7 +305,7 @@ Example C03_image_invariant_mod_nonvacuous :
              WMsg 0 true (MMod 5 None [] [FarIE IErr IErr IErr IErr] [] [] [] [] [] [] []) [];
              WMsg 0 true (MDel 5) []] in
   (forall x, In x (states burst w0 es) -> envelope burst x /\ alloc_backed x) /\
-  hist_ok burst w0 es = true /\ forallb ev_ok es = false /\ image_ok burst w0 /\
+  guarded_hist burst w0 es = true /\ forallb ev_ok es = false /\ image_ok burst w0 /\
   wtrace burst w0 es =
     [(Some (RSetup CAUSE_OK), []); (Some (REst 77 CAUSE_OK true (Some 5) []), []);
      (Some (RMod 77 CAUSE_OK), [Marker 100 8 6]); (Some (RMod 77 CAUSE_OK), []); (Some (RMod 78 CAUSE_OK), []);
